@@ -440,6 +440,8 @@ JAlign(ev, reg, opts) ==
                 want == IF doShape THEN DBroadcast(ds[i], common) ELSE ds[i]
                 own == ExpectDenAt(ev, i, "poly", want)
             IN IF own # "ok" THEN own
+               \* alignment changes the layout, not the coefficient type of an operand that carries one
+               ELSE IF reg[ev.args[i]].v.kind = "poly" /\ r.dtype # reg[ev.args[i]].v.dtype THEN "dtype"
                ELSE IF doNames /\ opts.retain_names /\ ~NamesOK(r.names) THEN "names"
                ELSE IF doNames /\ (r.names # ev.res[1].names \/ ~(RangeOf(r.names) \subseteq RangeOf(allNames))) THEN "names"
                ELSE IF doRows /\ (r.rows # ev.res[1].rows \/ r.keys # ev.res[1].keys) THEN "rows"
